@@ -262,7 +262,11 @@ func genVal(t *rapid.T) gn.Val {
 		case 3:
 			return gn.Val{Kind: "float", F: rapid.SampledFrom([]float64{2.5, 2.5000002}).Draw(t, "closef32")}
 		case 4:
-			return gn.Val{Kind: "leaflist", L: []gn.Val{{Kind: "int", I: int64(rapid.IntRange(0, 1).Draw(t, "l0"))}, {Kind: "string", S: "x"}}}
+			l := []gn.Val{{Kind: "int", I: int64(rapid.IntRange(0, 1).Draw(t, "l0"))}, {Kind: "string", S: "x"}}
+			if rapid.Bool().Draw(t, "lswap") {
+				l[0], l[1] = l[1], l[0] // the same members in another order are another value
+			}
+			return gn.Val{Kind: "leaflist", L: l}
 		case 5:
 			return gn.Val{Kind: rapid.SampledFrom([]string{"json", "jsonietf", "ascii", "bytes"}).Draw(t, "textkind"), S: rapid.SampledFrom([]string{`{"a":1}`, `{"a": 1}`, "x"}).Draw(t, "text")}
 		default:
